@@ -415,7 +415,7 @@ def parse_kani_result_file(path):
 def kani_group(pkg, obs, flags, stage_dir, scratch, tier):
     """Run all harnesses (obligation dicts with 'harness') of one package; fill in results."""
     jobs = min(len(obs), int(os.environ.get("VERIF_KANI_JOBS", "12")))
-    timeout_each = max(o.get("timeout", 1500 if tier == "quick" else 3600) for o in obs)
+    timeout_each = max(o.get("timeout", 1500 if tier == "quick" else 7200) for o in obs)
     tdir = os.path.join(scratch, "target-" + pkg)
     cmd = ["cargo", "kani", "-p", pkg, "--target-dir", tdir, "--output-format", "terse", "-j", str(jobs),
            "--harness-timeout", f"{timeout_each}s", "--output-into-files", "-Z", "unstable-options"]
@@ -523,7 +523,8 @@ def run_kani_file(unit, spec, stage_dir, scratch, tier, prop):
     wanted = [h["name"] for h in spec.get("harness", []) if tier_ok(h.get("tier", "quick"), tier)
               and prop in h.get("serves", spec.get("serves", []))]
     jobs = max(1, min(len(wanted), int(os.environ.get("VERIF_KANI_JOBS", "12"))))
-    cmd = ["kani", f, "--harness-timeout", f"{spec.get('timeout', 600)}s", "-Z", "unstable-options",
+    h_timeout = spec.get("timeout", 600) * (1 if tier == "quick" else 3)
+    cmd = ["kani", f, "--harness-timeout", f"{h_timeout}s", "-Z", "unstable-options",
            "-j", str(jobs), "--output-format", "terse", "--output-into-files"]
     if len(wanted) < len(spec.get("harness", [])):
         for w in wanted:
@@ -536,7 +537,7 @@ def run_kani_file(unit, spec, stage_dir, scratch, tier, prop):
             if fn.split("::")[-1] in wanted:
                 os.remove(os.path.join(rdir, fn))
     rounds = (len(wanted) + jobs - 1) // jobs
-    rc, out, err, secs, to = run(cmd, cwd=wd, timeout=spec.get("timeout", 600) * (rounds + 1) + 300, env=kenv,
+    rc, out, err, secs, to = run(cmd, cwd=wd, timeout=h_timeout * (rounds + 1) + 300, env=kenv,
                                  mem_kb=int(os.environ.get("VERIF_KANI_MEM_KB", str(40 * 1024 * 1024))))
     if "error: could not compile" in err or "error[E" in err or (rc != 0 and "Checking harness" not in out):
         raise Undecided(f"kani-file {name}: build failed:\n{(out + err)[-2500:]}")
